@@ -90,14 +90,26 @@ def Val.opd? : Val → Option Opd
 def f64OfInt (i : Int) : UInt64 := (Float.ofInt i).toBits
 def f64OfNat (n : Nat) : UInt64 := (Float.ofNat n).toBits
 
+/-- Go leaves float→integer conversion of NaN and out-of-range values implementation-defined:
+    the model declines (`none` → `unmodelled`) -/
+def f2i? (b : UInt64) : Option Int :=
+  let x := Float.ofBits b
+  if x.isNaN || x.isInf || x ≥ 9223372036854775808.0 || x < -9223372036854775808.0 then none
+  else some x.toInt64.toInt
+
+def f2u? (b : UInt64) : Option Nat :=
+  let x := Float.ofBits b
+  if x.isNaN || x.isInf || x ≥ 18446744073709551616.0 || x ≤ -1.0 then none
+  else some x.toUInt64.toNat
+
 def Opd.conv : Conv → Opd → Option Opd
   | .id, o => some o
   | .i64, .i v => some (.i v)
   | .i64, .u v => some (.i (wrapI64 v))
-  | .i64, .f x => some (.i (Float.ofBits x).toInt64.toInt)
+  | .i64, .f x => (f2i? x).map .i
   | .u64, .u v => some (.u v)
   | .u64, .i v => some (.u (wrapU64 v))
-  | .u64, .f x => some (.u (Float.ofBits x).toUInt64.toNat)
+  | .u64, .f x => (f2u? x).map .u
   | .f64, .f x => some (.f x)
   | .f64, .i v => some (.f (f64OfInt v))
   | .f64, .u v => some (.f (f64OfNat v))
